@@ -93,6 +93,10 @@ var props = map[string]propSpec{
 		Rule: "one case = topology 1-3 shards x 1-3 replicas hot (+ optional long-term tier), real bulk.SeqDBClient with the real circuit breaker (timeouts 50ms..1s, thresholds, sleep window on the fake clock) over scripted stub stores; per replica and call one of: ok, error, hang until the deadline, success after the deadline, reply lost, answer right at the deadline; 1-2 concurrent clients; oracle over the stubs' call log: acknowledged => some hot shard (and some long-term shard) has every replica with a successful call carrying exactly this payload, at most BulkMaxTries deliveries per replica, progress once faults stop; non-trivial = a non-ok outcome fired or the scheduler pre-empted; distinct = distinct (interleaving hash, fired outcome counts)",
 		Assume: []string{"stub stores answer as scripted; the payload is opaque bytes"},
 		Real:   []string{"proxy/bulk.SeqDBClient (storeDocs, sendBulkToStores, shard.Bulk, write status)", "network/circuitbreaker + cep21/circuit (real)"}, Stub: []string{"stores = scripted StoreApiClient stubs", "clock = synctest fake clock", "scheduling = verifsim"}},
+	"C16": {Engine: "proxysim", Level: "fault_enumeration", Batch: 300, QuickSec: 30, ThorSec: 600,
+		Rule: "one case = topology 1-3 shards x 1-3 replicas (+ optional long-term tier), real search.Ingestor (searchStores/searchShard, MergeQPRs, pagination, FetchDocsStream, merged docs iterators) over scripted stub stores answering from their slice of a model corpus; per call: ok, error, wants-old-data, too-many-fractions, with seeded latencies that decide the arrival order of shard replies; per fetch stream: ok, error, break after k, missing/extra/duplicated/swapped document; 1-4 requests per run (offset/size/order/fetch); oracle: error, or ids = correct merged top over exactly the shards that had an answering replica, flagged partial iff some shard had none, long-term tier consulted iff a hot store wants old data, i-th document is the document of the i-th id or empty; a panic inside the proxy is treated as the error response its recovery interceptor produces; non-trivial = a non-ok outcome fired or the scheduler pre-empted; distinct = distinct (interleaving hash, fired outcome counts)",
+		Assume: []string{"stub stores answer searches correctly for their own slice when scripted ok"},
+		Real:   []string{"proxy/search.Ingestor", "proxy/search docs iterators (grpc stream, merged, position based)", "seq.MergeQPRs"}, Stub: []string{"stores = scripted StoreApiClient stubs", "clock = synctest fake clock", "scheduling = verifsim"}},
 	"C18": {Engine: "cachesim", Level: "exploration", Batch: 500, QuickSec: 30, ThorSec: 600,
 		Rule: "one case = 2-6 caller tasks issuing Get/GetWithError (loader parks at scheduling points, returns a size, fails or panics), Release and NewCache over 1-4+ caches sharing one Cleaner, plus one cleaner task running Rotate/Cleanup/CleanEmptyGenerations+ReleaseBuckets; seeded scheduler pre-empts at every lock/WaitGroup operation and at statement level inside cache.go/cleaner.go; invariants per call, accounting/bucket/limit invariants at quiescence, porcupine linearizability of the lookup history against a register-with-eviction model; non-trivial = the scheduler pre-empted a runnable task; distinct = distinct interleaving hash",
 		Assume: []string{"a cache is released only when no lookup on it is in flight (seq-db releases under the fraction's write lock, lookups hold its read lock)", "the cleaner methods are called from one task, as CacheMaintainer does"},
